@@ -551,6 +551,30 @@ func init() {
 				}
 			}
 		}
+		// (1b) the bit-level methods on every boundary value (and the multiples of 2^64 below 2^128, whose low word is zero)
+		// at every boundary index, in place and into another register
+		bitVals := append([]*big.Int{}, bvals...)
+		for _, k := range []int64{2, 3, 5} {
+			v := new(big.Int).Lsh(big.NewInt(k), 64)
+			bitVals = append(bitVals, v, new(big.Int).Neg(v))
+		}
+		for _, v := range bitVals {
+			for _, idx := range []int{0, 1, 31, 32, 63, 64, 65, 66, 126, 127, 128, 129} {
+				for _, m := range []string{"Bit", "SetBit0", "SetBit1", "Lsh", "Rsh"} {
+					for _, z := range []int{0, 1} {
+						if m == "Bit" && z == 0 {
+							continue
+						}
+						if (m == "Lsh") && idx > 66 && !g.thorough() {
+							continue
+						}
+						init := []IntV{intV(big.NewInt(7)), intV(v), intV(big.NewInt(-3))}
+						st := BStep{M: m, Z: z, X: 1, Y: 2, R: 2, Aux: idx, AuxV: IntV{C: []int{}}, AuxS: []int{}}
+						g.emit(runHistory(init, []BStep{st, {M: "Sign", Z: z, AuxV: IntV{C: []int{}}, AuxS: []int{}}, {M: "TrailingZeroBits", Z: z, AuxV: IntV{C: []int{}}, AuxS: []int{}}}), "edge/"+m)
+					}
+				}
+			}
+		}
 		// (2) seeded histories: inline -> heap -> inline transitions on the same receiver
 		n := g.pick(6000, 200000)
 		for i := 0; i < n; i++ {
